@@ -20,6 +20,10 @@ def run(ctx, R, tier):
     ungated(F, R, rule='B.C05.speed-ungated')
     torn(F, R)
     # a tween scheduled on another clock sees that clock's time of THIS buffer: clocks are advanced in creation order
+    from .c19 import cmp_ as clock_time_order
+    clock_time_order(F, R)
+    from .c19 import speed_units
+    speed_units(F, R, rule='B.C05.speed-units')
     from .c17 import once as update_order
     update_order(F, R)
     from ..enginea import run_singular_only
